@@ -328,6 +328,60 @@ def family(rec, fam, build_objects, funcs, native_module=None):
             rec.run('%s/%s[bounded]' % (fam, kind), funcs, 'B', gob)
     objs = [o for o in objs if o[0] not in [x[0] for x in outside]]
 
+    # bounded run-time contract on the installed chi: a caller that re-uses its argument arrays (overwriting them in place between two
+    # calls) gets the result of a fresh object at the new values; arguments are not written; an earlier result is not changed later
+    def reuse():
+        import chi as real
+        c = native_module() if native_module else real
+        bad, n = [], 0
+        for label, factory, methods in build_objects(c, NumArgs()):
+            for name, call, args_of in methods:
+                try:
+                    want = _copy.deepcopy(numeric_result(call(factory(), args_of('a'))))
+                    o = factory()
+                    args = args_of('b')
+                    first = call(o, args)
+                except Exception:
+                    continue                          # the harness cannot execute this method natively (covered by the symbolic part)
+                first_then = _copy.deepcopy(numeric_result(first))
+                new = args_of('a')
+                def overwrite(x, y):
+                    if isinstance(x, np.ndarray) and isinstance(y, np.ndarray) and x.shape == y.shape:
+                        np.copyto(x, y)
+                    elif isinstance(x, list) and isinstance(y, list) and len(x) == len(y):
+                        x[:] = y
+                    elif isinstance(x, dict) and isinstance(y, dict):
+                        for k_ in x:
+                            overwrite(x[k_], y[k_])
+                for x, y in zip(args, new):
+                    overwrite(x, y)
+                before = _copy.deepcopy([numeric_result(a) if isinstance(a, (np.ndarray, list)) else None for a in args])
+                n += 1
+                try:
+                    got = numeric_result(call(o, args))
+                except Exception as ex:
+                    bad.append('%s: %s raises %r when it is called again with the same argument arrays, updated in place' % (label, name, ex))
+                    continue
+                def defined(r):            # sensitivities that accompany a score of -inf are documented to be meaningless (uninitialised memory)
+                    if isinstance(r, list) and r and np.ndim(r[0]) == 0 and np.isneginf(r[0]):
+                        return r[:1]
+                    return r
+                if not same_numeric(defined(got), defined(want)):
+                    bad.append('%s: %s called again with the same argument arrays, updated in place by the caller, does not return the result of a fresh object at the new values' % (label, name))
+                own = [r_ for r_ in (first if isinstance(first, (list, tuple)) else [first]) if isinstance(r_, np.ndarray)]
+                views = any(np.shares_memory(r_, a) for r_ in own for a in args if isinstance(a, np.ndarray))     # a result that is (a view of) the caller's own argument changes with it by definition
+                if not views and not same_numeric(defined(numeric_result(first)), defined(first_then)):
+                    bad.append('%s: the result returned by the first %s changed when the caller updated its arrays and called again' % (label, name))
+                after = [numeric_result(a) if isinstance(a, (np.ndarray, list)) else None for a in args]
+                if not all((u is None and v is None) or same_numeric(u, v) for u, v in zip(before, after)):
+                    bad.append('%s: %s writes into the argument arrays of the caller' % (label, name))
+        if bad:
+            return ('refuted', 'bounded run-time contract (native execution)', bad[0] + ' | %d failures: %s' % (len(bad), bad[1:5]), {'what': bad[0], 'expected': 'reuse', 'observed': bad[:10]})
+        if not n:
+            return ('undecided', 'bounded run-time contract', 'no method of this family could be executed natively')
+        return ('discharged', 'bounded run-time contract (native execution)', '%d method executions with re-used, overwritten argument arrays' % n)
+    rec.run('%s/reuse[bounded]' % fam, funcs, 'B', reuse)
+
     def native_replay(kind, label):
         import chi as real
         c = native_module() if native_module else real
